@@ -1,5 +1,7 @@
 import SaModel.Lemmas.C16Run
 import SaModel.Lemmas.C16FromType
+import SaModel.Lemmas.C16Depth
+import SaModel.Lemmas.C16Time
 import SaModel.Props.C17
 import SaModel.Props.C14
 import SaModel.Props.C15
@@ -102,11 +104,36 @@ theorem extDefault_np : ExtNP {} :=
 def codecUnit : SaModel.TimeUnit → SaModel.Codec.TimeUnit
   | .second => .second | .millisecond => .millisecond | .microsecond => .microsecond | .nanosecond => .nanosecond
 
+/-- `TimestampBuilder::serialize_str` (the timestamp string parser): for EVERY string, unit and time-zone setting a
+value or an error.  The one panic branch of the model — chrono's `timestamp_millis()` / `timestamp_micros()` overflowing
+`i64` — is unreachable: every instant the parser models return lies inside chrono's date range
+(`parseNaiveDateTime_range`, `parseUtcDateTime_range`: days in [-96465292, 95026236], second of day < 86400,
+nanosecond < 2·10^9, the leap second included), where the products fit (`C14.instantToUnits_no_panic`). -/
+theorem timestampOfString_no_panic (u : SaModel.Codec.TimeUnit) (utc : Bool) (s : List Char) :
+    (SaModel.Codec.timestampOfString u utc s).isPanic = false := Lemmas.C16.timestampOfString_np u utc s
+
+/-- the instants the two date-time parsers return are inside chrono's range -/
+theorem parseNaiveDateTime_range {s : List Char} {t : SaModel.Codec.Instant} (h : SaModel.Codec.parseNaiveDateTime s = .ok t) :
+    SaModel.Codec.inChronoDays t.days = true ∧ t.secs < 86400 ∧ t.nanos < 2000000000 :=
+  Lemmas.C16.parseNaiveDateTime_range h
+
+theorem parseUtcDateTime_range {s : List Char} {t : SaModel.Codec.Instant} (h : SaModel.Codec.parseUtcDateTime s = .ok t) :
+    SaModel.Codec.inChronoDays t.days = true ∧ t.secs < 86400 ∧ t.nanos < 2000000000 :=
+  Lemmas.C16.parseUtcDateTime_range h
+
+/-- non-vacuity: the extreme dates of chrono's range, a leap second, a zone offset that moves the date; strings that
+are refused -/
+example : (SaModel.Codec.timestampOfString .microsecond false "+262142-12-31T23:59:60.999999999".toList).isOk = true ∧
+    (SaModel.Codec.timestampOfString .microsecond true "-262143-01-01T00:00:00Z".toList).isOk = true ∧
+    (SaModel.Codec.timestampOfString .nanosecond false "+262142-12-31T23:59:59".toList).isErr = true ∧
+    (SaModel.Codec.timestampOfString .millisecond true "-262143-01-01T00:00:00+01:00".toList).isErr = true ∧
+    (SaModel.Codec.timestampOfString .second true "2020-02-30T00:00:00Z".toList).isErr = true ∧
+    (SaModel.Codec.timestampOfString .second false "".toList).isErr = true := by decide +kernel
+
 /-- the external functions as the correspondence driver instantiates them (Driver/Suites/Build.lean `extOfAux`):
-decimal and temporal string conversions are the codec models of C15 / C14; the float display strings, the float
-product of the decimal float path (`cast`) and the timestamp parser are parameters -/
-def codecExt (f32Str f64Str : Nat → String) (cast : Nat → Int → Bool → Nat → Option (Bool × Int))
-    (parseTimestamp : SaModel.TimeUnit → Bool → String → R Int) : Ext :=
+decimal and temporal string conversions are the codec models of C15 / C14; the float display strings and the float
+product of the decimal float path (`cast`) are parameters (they come from the case) -/
+def codecExt (f32Str f64Str : Nat → String) (cast : Nat → Int → Bool → Nat → Option (Bool × Int)) : Ext :=
   { f32Str := f32Str, f64Str := f64Str,
     parseDecimal := fun p s txt => SaModel.Decimal.serializeStr p s txt.toUTF8.toList,
     floatToDecimal := fun p s is64 bits =>
@@ -116,20 +143,16 @@ def codecExt (f32Str f64Str : Nat → String) (cast : Nat → Int → Bool → N
     parseDate := fun is64 s => SaModel.Codec.dateOfString (if is64 then .date64 else .date32) s.toList,
     parseTime := fun u s =>
       SaModel.Codec.timeOfString (match u with | .second | .millisecond => .time32 | _ => .time64) (codecUnit u) s.toList,
-    parseTimestamp := parseTimestamp,
+    parseTimestamp := fun u utc s => SaModel.Codec.timestampOfString (codecUnit u) utc s.toList,
     parseDuration := fun u s => SaModel.Codec.durationOfString s.toList (codecUnit u) }
 
-/-- `ExtNP` is a theorem for the codec models (date, time, duration, decimal string and float paths).
-`_partial`: the timestamp string parser (`Codec.timestampOfString`) has no no-panic theorem in C14 yet (its model
-has a panic branch for `timestamp_millis/micros` overflow that is unreachable inside chrono's range), so it stays a
-hypothesis here. -/
-theorem codecExt_np_partial (f32Str f64Str : Nat → String) (cast : Nat → Int → Bool → Nat → Option (Bool × Int))
-    (parseTimestamp : SaModel.TimeUnit → Bool → String → R Int)
-    (hts : ∀ u utc s, (parseTimestamp u utc s).isPanic = false) :
-    ExtNP (codecExt f32Str f64Str cast parseTimestamp) where
+/-- `ExtNP` is a theorem for the codec models: date, time, timestamp and duration string parsers, decimal string and
+float paths — no hypothesis left -/
+theorem codecExt_np (f32Str f64Str : Nat → String) (cast : Nat → Int → Bool → Nat → Option (Bool × Int)) :
+    ExtNP (codecExt f32Str f64Str cast) where
   parseDate := fun _ _ => SaModel.Props.C14.dateOfString_no_panic _ _
   parseTime := fun _ _ => SaModel.Props.C14.timeOfString_no_panic _ _ _
-  parseTimestamp := hts
+  parseTimestamp := fun _ _ _ => timestampOfString_no_panic _ _ _
   parseDuration := fun _ _ => SaModel.Props.C14.span_no_panic _ _
   parseDecimal := fun p sc s h1 h2 =>
     (isPanic_false_iff _).2 (fun site => SaModel.Props.C15.parse_no_panic p sc _ h1 h2 site)
@@ -138,6 +161,12 @@ theorem codecExt_np_partial (f32Str f64Str : Nat → String) (cast : Nat → Int
     split
     · exact (isPanic_false_iff _).2 (fun site => SaModel.Props.C15.float_no_panic p sc _ _ site)
     · rfl
+
+/-- `to_marrow` with the codec models plugged in: no hypothesis on the external functions is left -/
+theorem toMarrow_codec_no_panic (f32Str f64Str : Nat → String) (cast : Nat → Int → Bool → Nat → Option (Bool × Int))
+    (fields : List Field) (rows : List SVal) (site : String) :
+    toMarrow (codecExt f32Str f64Str cast) fields rows ≠ panic site :=
+  Lemmas.C16.ne_panic_of_isPanic (Lemmas.C16.toMarrow_np _ (codecExt_np f32Str f64Str cast) fields rows) site
 
 /-- `into_array` of every builder -/
 theorem finish_no_panic (ext : Ext) (he : ExtNP ext) (b : B) (hb : NPInv b) (site : String) : finish ext b ≠ panic site :=
@@ -247,27 +276,130 @@ theorem fromTypeLoop_exhausted (c : Code) (o : Options) (ty : Ty) (budget : Nat)
     fromTypeLoop c o ty budget t ≠ .ok t' :=
   Lemmas.C16.fromTypeLoop_exhausted c o ty budget t h t'
 
-/-- the depth limit cuts every unfolding of a recursive type: more than `MAX_TYPE_DEPTH` nested containers are
-refused with the documented error in the first pass (here: `Vec<Vec<…>>`; `Option` and newtypes do not add depth) -/
+/-- C16 for `from_type`: `SerdeArrowSchema::from_type::<T>(options)` returns a schema or an error for EVERY type
+description and ALL options (budget, overwrites, every flag).  Corollary of `C08_from_type`
+(`Agree (fromType c o ty) (Spec.fromTypeSpec o ty)`; `Agree` relates only values and Rust errors). -/
+theorem fromType_no_panic (c : Code) (o : Options) (ty : Ty) (site : String) : fromType c o ty ≠ .error (.panic site) :=
+  Lemmas.C16.ne_panic_of_isPanic (Lemmas.C16.fromType_np c o ty) site
+
+/-- one pass of the derived `Deserialize` never unwinds on a tracer that conforms to the type (`Conf`, C08: the tracer
+was grown by `explore` from this very type at this path; a fresh node conforms to every type), and the result conforms
+again (or the pass is a Rust error) -/
+theorem explore_no_panic (c : Code) (o : Options) (ty : Ty) (p : String) (t : Tracer) (h : Lemmas.C08.Conf o p ty t)
+    (site : String) : explore c o t ty ≠ .error (.panic site) :=
+  Lemmas.C16.ne_panic_of_isPanic (Lemmas.C16.explore_np c o ty p t h) site
+
+theorem explore_preserves_conf (c : Code) (o : Options) (ty : Ty) (p : String) (t t' : Tracer)
+    (h : Lemmas.C08.Conf o p ty t) (he : explore c o t ty = .ok t') : Lemmas.C08.Conf o p ty t' := by
+  have := Lemmas.C08.explore_conf c o ty p t h
+  rw [he] at this; exact this
+
+/-- ANY number of consecutive passes from a fresh node (beyond completion and past the budget too) never unwinds -/
+theorem passes_no_panic (c : Code) (o : Options) (ty : Ty) (k : Nat) (site : String) :
+    passes c o ty k (Tracer.new "$" "$") ≠ .error (.panic site) :=
+  Lemmas.C16.ne_panic_of_isPanic (Lemmas.C16.passes_np c o ty k "$" "$" false) site
+
+/-- the invariant is needed: on a tracer state `from_type` cannot reach (a union with an unseen slot) `explore` does
+unwind in the model (`opt.as_ref().unwrap()` in the variant scan) -/
+theorem explore_unreachable_state_panics :
+    (explore .fixed {} (.union "$" "$" false (.absent .nil)) (.enum "E" (.unit "A" .nil))).isPanic = true := by decide
+
+/-- non-vacuity of `explore_no_panic`: the tracer after one pass over an enum conforms (and is not complete) -/
+example : ∃ t, explore .fixed {} (Tracer.new "$" "$") (.enum "E" (.unit "A" (.newtype "B" (.vec .bool) .nil))) = .ok t ∧
+    Lemmas.C08.Conf {} "$" (.enum "E" (.unit "A" (.newtype "B" (.vec .bool) .nil))) t ∧ t.is_complete = false := by
+  have hok : (explore .fixed {} (Tracer.new "$" "$") (.enum "E" (.unit "A" (.newtype "B" (.vec .bool) .nil)))).isOk = true := by
+    decide +kernel
+  cases h : explore .fixed {} (Tracer.new "$" "$") (.enum "E" (.unit "A" (.newtype "B" (.vec .bool) .nil))) with
+  | error e => rw [h] at hok; cases hok
+  | ok t =>
+    refine ⟨t, rfl, explore_preserves_conf _ _ _ _ _ _ (Lemmas.C08.conf_fresh _ _ "$" "$" false) h, ?_⟩
+    have hc : ((explore .fixed {} (Tracer.new "$" "$") (.enum "E" (.unit "A" (.newtype "B" (.vec .bool) .nil)))).toOption.map
+        Tracer.is_complete) = some false := by decide +kernel
+    rw [h] at hc
+    simpa [Except.toOption] using hc
+
+/-! #### the depth limit: recursive types, every container family -/
+
+open SaModel.Trace.Spec (walkable) in
+open SaModel.Lemmas.C08 (Descends unroll) in
+/-- the depth limit cuts every unrolling of a recursive type.  A recursive Rust definition `T = F T` is represented by
+its unrollings `unroll F n base` (`Ty` is a finite tree; a pass never looks below the first container that is too
+deep, so `from_type::<T>` behaves like these); when `F` puts its argument at least one path level down (`Descends`)
+every unrolling deeper than `MAX_TYPE_DEPTH` = 20 is an error VALUE of `from_type` — for all options, every budget. -/
+theorem fromType_deep_is_error (c : Code) (o : Options) (F : Ty → Ty) (hF : Descends o F) (base : Ty) (n : Nat)
+    (hn : MAX_TYPE_DEPTH < n) : (fromType c o (unroll F n base)).isErr = true :=
+  Lemmas.C16.fromType_recursive_err c o F hF base n hn
+
+section Families
+open SaModel.Lemmas.C08 (Descends unroll)
+open SaModel.Lemmas.C16 (TysMem FieldsMem PayloadMem)
+
+/-- EVERY container constructor of the type description descends, wherever the recursive occurrence sits among the
+elements, fields or variant payloads: `Vec` (sequences), maps (key or value), tuples / arrays, tuple structs, structs,
+enums (newtype, tuple and struct variants) -/
+theorem descends_containers (o : Options) :
+    Descends o (fun t => .vec t) ∧
+    (∀ k, Descends o (fun t => .map k t)) ∧ (∀ v, Descends o (fun t => .map t v)) ∧
+    (∀ G : Ty → Tys, (∀ t, TysMem t (G t)) → Descends o (fun t => .tuple (G t))) ∧
+    (∀ name (G : Ty → Tys), (∀ t, TysMem t (G t)) → Descends o (fun t => .tupleStruct name (G t))) ∧
+    (∀ name (G : Ty → TyFields), (∀ t, FieldsMem t (G t)) → Descends o (fun t => .struct name (G t))) ∧
+    (∀ name (G : Ty → TyVariants), (∀ t, PayloadMem t (G t)) → Descends o (fun t => .enum name (G t))) :=
+  ⟨Lemmas.C16.descends_vec o, Lemmas.C16.descends_map_value o, Lemmas.C16.descends_map_key o,
+   Lemmas.C16.descends_tuple o, Lemmas.C16.descends_tupleStruct o, Lemmas.C16.descends_struct o,
+   Lemmas.C16.descends_enum o⟩
+
+/-- the transparent wrappers (`Option`, `Box`, newtype structs add no path level) on either side of a descending
+constructor, and nesting of descending constructors -/
+theorem descends_wrappers (o : Options) (F : Ty → Ty) (hF : Descends o F) :
+    Descends o (fun t => .option (F t)) ∧ (∀ name, Descends o (fun t => .newtypeStruct name (F t))) ∧
+    Descends o (fun t => F (.option t)) ∧ (∀ name, Descends o (fun t => F (.newtypeStruct name t))) ∧
+    (∀ G, Descends o G → Descends o (fun t => F (G t))) :=
+  ⟨Lemmas.C16.descends_option o F hF, fun name => Lemmas.C16.descends_newtype o name F hF,
+   Lemmas.C16.descends_of_option o F hF, fun name => Lemmas.C16.descends_of_newtype o name F hF,
+   fun G hG => Lemmas.C16.descends_comp o F G hF hG⟩
+
+/-- `Option` / newtypes alone do NOT descend — and need not: `struct W(Option<Box<W>>)` is traced to an error by the
+budget, not by the depth limit -/
+example : ¬ Descends {} (fun t => .option t) := by
+  intro h
+  have := (h .bool "$.a.a.a.a.a.a.a.a.a.a.a.a.a.a.a.a.a.a.a.a" (by decide)).1
+  revert this; decide
+
+/-- non-vacuity: `struct Node { value: i32, next: Option<Box<Node>> }`, `enum Tree { Leaf, Node(Box<Tree>, Box<Tree>) }`,
+`struct Dir { entries: HashMap<String, Dir> }`, `struct Rose(Vec<Rose>)` — every unrolling of more than 20 levels is
+an error of `from_type`, whatever the options -/
+example (c : Code) (o : Options) (base : Ty) (n : Nat) (hn : MAX_TYPE_DEPTH < n) :
+    (fromType c o (unroll (fun t => .struct "Node" (.cons "value" (.int .i32) (.cons "next" (.option t) .nil))) n base)).isErr = true ∧
+    (fromType c o (unroll (fun t => .enum "Tree" (.unit "Leaf" (.tuple "Node" (.cons t (.cons t .nil)) .nil))) n base)).isErr = true ∧
+    (fromType c o (unroll (fun t => .struct "Dir" (.cons "entries" (.map .string t) .nil)) n base)).isErr = true ∧
+    (fromType c o (unroll (fun t => .newtypeStruct "Rose" (.vec t)) n base)).isErr = true := by
+  refine ⟨fromType_deep_is_error c o _ ?_ base n hn, fromType_deep_is_error c o _ ?_ base n hn,
+    fromType_deep_is_error c o _ ?_ base n hn, fromType_deep_is_error c o _ ?_ base n hn⟩
+  · exact Lemmas.C16.descends_of_option o (fun t => .struct "Node" (.cons "value" (.int .i32) (.cons "next" t .nil)))
+      (Lemmas.C16.descends_struct o "Node" (fun t => .cons "value" (.int .i32) (.cons "next" t .nil))
+        (fun t => Or.inr (Or.inl rfl)))
+  · exact Lemmas.C16.descends_enum o "Tree" (fun t => .unit "Leaf" (.tuple "Node" (.cons t (.cons t .nil)) .nil))
+      (fun t => Or.inl (Or.inl rfl))
+  · exact Lemmas.C16.descends_comp o (fun t => .struct "Dir" (.cons "entries" t .nil)) (fun t => .map .string t)
+      (Lemmas.C16.descends_struct o "Dir" (fun t => .cons "entries" t .nil) (fun t => Or.inl rfl))
+      (Lemmas.C16.descends_map_value o .string)
+  · exact Lemmas.C16.descends_newtype o "Rose" _ (Lemmas.C16.descends_vec o)
+
+end Families
+
+/-- for `Vec<Vec<…>>` (`nestVec k ty` = `unroll Vec k ty`) moreover: the refusal is the documented message, in the FIRST
+pass, whatever the inner type -/
 theorem explore_deep (c : Code) (o : Options) (ty : Ty) (k : Nat) (hk : MAX_TYPE_DEPTH + 1 ≤ k) :
     explore c o (Tracer.new "$" "$") (nestVec k ty) = fail "Too deeply nested type detected" :=
   Lemmas.C16.explore_deep_vec c o ty k "$" "$" false (by rw [Lemmas.C16.countDots_root]; exact Nat.zero_le _)
     (by rw [Lemmas.C16.countDots_root]; omega)
 
-theorem fromType_deep_is_error (c : Code) (o : Options) (ty : Ty) (k : Nat) (hk : MAX_TYPE_DEPTH + 1 ≤ k) :
-    (fromType c o (nestVec k ty)).isErr = true := Lemmas.C16.fromType_deep_vec c o ty k hk
-
 example : (fromTypeLoopN .fixed {} (.struct "S" (.cons "a" (.option .bool) .nil)) 100 (Tracer.new "$" "$")).2 = 1 := by
   decide +kernel
-example : (fromType .fixed {} (nestVec 21 .bool)).isErr = true := fromType_deep_is_error _ _ _ 21 (by decide)
+example : (fromType .fixed {} (nestVec 21 .bool)).isErr = true := by
+  rw [Lemmas.C16.nestVec_eq_unroll]
+  exact fromType_deep_is_error _ _ _ (Lemmas.C16.descends_vec _) _ 21 (by decide)
 example : (fromType .fixed {} (.struct "S" (.cons "a" (nestVec 3 .bool) .nil))).isOk = true := by decide +kernel
-
-/-- `explore` on a tracer state `from_type` cannot reach (a union with an unseen slot) does unwind in the model
-(`opt.as_ref().unwrap()` in the variant scan): a no-panic theorem for `explore` needs the invariant "the tracer was
-grown by `explore` from the same type".  OPEN: `explore_no_panic` / `fromType_no_panic` under that invariant
-(notes/C16.md describes it). -/
-theorem explore_unreachable_state_panics :
-    (explore .fixed {} (.union "$" "$" false (.absent .nil)) (.enum "E" (.unit "A" .nil))).isPanic = true := by decide
 
 end Tracing
 
